@@ -18,8 +18,53 @@ def isPermOfRange (perm : List Nat) (n : Nat) : Bool :=
 def showResidue (p : Char × List Mod) : String :=
   Wire.esc [p.1] ++ ":" ++ Wire.showModsWith "&" p.2
 
+/-- one step of a chain of editors applied to one object lineage; `set <dump>` replaces the state (used for steps outside this
+model, e.g. condense_static_mods), `copy` / `split` / `discard` leave it unchanged -/
+def chainStep (a : Annotation) (st : String) : Except String Annotation :=
+  match st.splitOn " " with
+  | ["rev", sw] =>
+    match parseBool? sw with
+    | some sw => .ok (reverse a sw)
+    | none => .error "bad-op"
+  | ["shift", k] =>
+    match parseInt? k with
+    | some k => match shift a k with | .ok b => .ok b | .error e => .error e.show
+    | none => .error "bad-op"
+  | ["shuf", perm] =>
+    match parseNatList? perm with
+    | some perm =>
+      if isPermOfRange perm a.seq.length then match shuffle a perm with | .ok b => .ok b | .error e => .error e.show
+      else .error "bad-op"
+    | none => .error "bad-op"
+  | ["sort"] => match sortResidues a with | .ok b => .ok b | .error e => .error e.show
+  | ["slice", i, j] =>
+    match parseOptInt? i, parseOptInt? j with
+    | some i, some j => .ok (sliceOpt a i j false)
+    | _, _ => .error "bad-op"
+  | ["strip"] => .ok (plain a.seq)
+  | ["copy"] => .ok a
+  | ["split"] => .ok a
+  | ["discard"] => .ok a
+  | ["set", d] =>
+    match Wire.parseAnnotation? d with
+    | some b => .ok b
+    | none => .error "bad-op"
+  | _ => .error "bad-op"
+
+/-- states after every step, `~`-joined; an error ends the chain -/
+def runChain : Annotation → List String → List String
+  | _, [] => []
+  | a, st :: rest =>
+    match chainStep a st with
+    | .ok b => Wire.showAnnotation b :: runChain b rest
+    | .error e => [e]
+
 def step (line : String) : String :=
   match splitTab line with
+  | "chain" :: a :: steps =>
+    match Wire.parseAnnotation? a with
+    | some a => "~".intercalate (runChain a steps)
+    | none => "bad-op"
   | ["slice", a, s, e, inpl] =>
     match Wire.parseAnnotation? a, parseOptInt? s, parseOptInt? e, parseBool? inpl with
     | some a, some s, some e, some inpl => Wire.showAnnotation (sliceOpt a s e inpl)
